@@ -426,3 +426,26 @@ def pre_timestep_keeps_rule_state(fields=("operating_state", "enabled", "deleted
         else:
             obs.append(_ob("mask_window", name, fi.node.lineno, "discharged", "", "pre_timestep does not store to rule-read state"))
     return obs
+
+
+# ------------------------------------------------------------------- C04: a game is set up for its episode wherever one is built
+def built_games_are_set_up(files=("src/primaite/session/",)) -> List[dict]:
+    """`reset()` builds the next episode's game with PrimaiteGame.from_config and then runs game.setup_for_episode(); "an environment
+    after reset behaves like a newly constructed one" needs the constructor to go through the same two steps.  One obligation per
+    function of the session layer that builds a game: it also sets it up."""
+    obs = []
+    for fi in _functions(files):
+        builds, setups = [], []
+        for n in ast.walk(fi.node):
+            if isinstance(n, ast.Call) and isinstance(n.func, ast.Attribute):
+                if n.func.attr == "from_config" and isinstance(n.func.value, ast.Name) and n.func.value.id == "PrimaiteGame":
+                    builds.append(n)
+                elif n.func.attr == "setup_for_episode":
+                    setups.append(n)
+        for b in builds:
+            ok = any(s_.lineno > b.lineno for s_ in setups)
+            obs.append(_ob("scan", f"setup_after_build@{fi.qualname}", b.lineno, "discharged" if ok else "failed",
+                           "" if ok else f"{fi.key} line {b.lineno}: builds a game with PrimaiteGame.from_config but never runs setup_for_episode on it, "
+                                         f"while reset() does: the first episode starts from a differently prepared simulation than every later one",
+                           "every function that builds a game also sets it up for its episode"))
+    return obs
